@@ -40,6 +40,25 @@ def success_edge_filter(f, call):
     return (lambda bb, kk: (bb, kk) not in blocked), bool(blocked)
 
 
+def reverse_child_loops(f, calls):
+    """loops in f whose body contains one of `calls` and that walk children_ from the back: reverse iterators (rbegin..rend)
+    or an index that starts at children_.size() and only counts down"""
+    out = []
+    for l in f.stmts:
+        if not l or l['k'] not in ('ForStmt', 'WhileStmt') or l.get('body') is None or not any(c['i'] in set(f.walk(l['body'])) for c in calls):
+            continue
+        sub = set(f.walk(l['i']))
+        calls_in = [f.stmts[x] for x in sub if f.stmts[x]['k'] in q.CALL_KINDS]
+        incs = [f.stmts[x] for x in sub if f.stmts[x]['k'] in ('UnaryOperator', 'CXXOperatorCallExpr') and f.stmts[x].get('op') == '++']
+        decs = [f.stmts[x] for x in sub if f.stmts[x]['k'] in ('UnaryOperator', 'CXXOperatorCallExpr') and f.stmts[x].get('op') == '--']
+        by_riter = any(c.get('fn') == 'rbegin' for c in calls_in) and any(c.get('fn') == 'rend' for c in calls_in) and bool(incs) and not decs
+        by_index = l.get('init') is not None and any(c.get('fn') == 'size' and (f.field_of(c.get('obj')) or '').endswith('children_') for c in q.subtree_calls(f, l['init'])) and \
+            bool(decs) and not incs
+        if by_riter or by_index:
+            out.append(l)
+    return out
+
+
 def r1(ctx, prog):
     ctx.rule('C11.R1', 'A5 hook balance: on every path of initialize()/start() after the module\'s own hook succeeded, either the state advances '
                        '(so cleanup()/stop() will run the matching hook later) or the matching hook is called before returning; the rollback also '
@@ -65,15 +84,18 @@ def r1(ctx, prog):
         cc = child_calls(f, fn)
         if not cc:
             raise AnalysisBroken('%s: recursive call on children not found' % f.name)
+        undo_loops = reverse_child_loops(f, child_calls(f, child_undo))
+        must = [f.cfg.point_of(l['cond']) for l in undo_loops if l.get('cond') is not None]
+        n_fail = 0
         for r in q.returns(f):
-            if q.return_const(f, r) == 0 and f.enclosing(r['i'], ('CXXForRangeStmt', 'ForStmt')) is not None and any(f.cfg.exists_path(q.pt(f, c), q.pt(f, r)) for c in cc):
-                blk = f.enclosing(r['i'], ('CompoundStmt',))
-                cu = [st for st in child_calls(f, child_undo) if blk is not None and st['i'] in set(f.walk(blk))]
-                rev = any('rbegin' in ' '.join(q.subtree_paths(f, l.get('init', -1))) or any(c2.get('fn') == 'rbegin' for c2 in q.subtree_calls(f, l['i']))
-                          for l in [f.stmts[x] for x in f.walk(blk)] if l['k'] == 'ForStmt') if blk is not None else False
-                ctx.ob('C11.R1', '%s|children-rolled-back' % f.name, bool(cu) and rev,
-                       'the failing branch runs %s() over the children in reverse order' % child_undo if cu and rev else
+            if q.return_const(f, r) == 0 and any(f.cfg.exists_path(q.pt(f, c), q.pt(f, r)) for c in cc):
+                n_fail += 1
+                okr = bool(must) and not any(f.cfg.exists_path(q.pt(f, c), q.pt(f, r), avoid=must) for c in cc)
+                ctx.ob('C11.R1', '%s|children-rolled-back' % f.name, okr,
+                       'every path from a child\'s %s() to this failure return runs %s() over the children in reverse order' % (fn, child_undo) if okr else
                        'a required child failed: %s returns false without running %s() on the children that already succeeded' % (fn, child_undo), where=f.loc(r['i']))
+        if n_fail == 0:
+            ctx.ob('C11.R1', '%s|children-rolled-back' % f.name, False, 'no failure return after the children loop: a failing required child is ignored', where=f.loc(f.body))
         # success store comes after all children
         for a in adv:
             ctx.ob('C11.R1', '%s|advance-last' % f.name, all(not f.cfg.exists_path(q.pt(f, a), q.pt(f, c)) for c in cc), 'state_ advances only after the children loop', where=f.loc(a['i']))
@@ -100,21 +122,27 @@ def r2(ctx, prog):
         fwd = [l for l in f.stmts if l and l['k'] == 'CXXForRangeStmt' and (f.field_of(l['range']) or '').endswith('children_') and any(c['i'] in set(f.walk(l['body'])) for c in cc)]
         ctx.ob('C11.R2', '%s|forward' % f.name, bool(fwd), 'children handled by a forward range-for over children_ (registration order)', where=f.loc(f.body))
         # abort only for required children
-        for r in q.returns(f):
-            if q.return_const(f, r) == 0 and any(f.cfg.exists_path(q.pt(f, c), q.pt(f, r)) for c in cc) and f.enclosing(r['i'], ('CXXForRangeStmt',)) is not None:
+        # abort only for required children: whatever leaves the children loop early (return / break) sits under `... && item.required`
+        n_leave = 0
+        for r in f.stmts:
+            if r and r['k'] in ('ReturnStmt', 'BreakStmt') and fwd and any(r['i'] in set(f.walk(l['body'])) for l in fwd):
+                n_leave += 1
                 g = [c for c, br in q.lexical_guards(f, r['i']) if br == 'then' and 'item.required' in q.subtree_paths(f, c)]
                 okc = False
                 for c in g:
                     x = f.s(f.strip_casts(c))
                     okc = okc or (x['k'] == 'BinaryOperator' and x.get('op') == '&&')
                 ctx.ob('C11.R2', '%s|required-only' % f.name, okc, 'a child failure aborts only when item.required', where=f.loc(r['i']))
+        if n_leave == 0:
+            ctx.ob('C11.R2', '%s|required-only' % f.name, False, 'the children loop never aborts: a failing required child is ignored', where=f.loc(f.body))
     for fn, hook in (('stop', 'onStop'), ('cleanup', 'onCleanup')):
         f = prog.fn1(M + '::' + fn)
         h = hook_calls(f, hook)[0]
         cc = child_calls(f, fn)
-        loops = [l for l in f.stmts if l and l['k'] == 'ForStmt' and any(c['i'] in set(f.walk(l['body'])) for c in cc)]
-        rev = bool(loops) and all(any(c2.get('fn') == 'rbegin' for c2 in q.subtree_calls(f, l['init'])) and any(c2.get('fn') == 'rend' for c2 in q.subtree_calls(f, l['cond'])) for l in loops)
-        ctx.ob('C11.R2', '%s|reverse' % f.name, rev, 'children walked rbegin()..rend()', where=f.loc(f.body))
+        loops = [l for l in f.stmts if l and l['k'] in ('ForStmt', 'WhileStmt', 'CXXForRangeStmt') and l.get('body') is not None and any(c['i'] in set(f.walk(l['body'])) for c in cc)]
+        revl = reverse_child_loops(f, cc)
+        rev = bool(loops) and len(revl) == len(loops)
+        ctx.ob('C11.R2', '%s|reverse' % f.name, rev, 'children walked from the back (rbegin()..rend() or a down-counting index)', where=f.loc(f.body))
         ctx.ob('C11.R2', '%s|own-last' % f.name, bool(cc) and all(not f.cfg.exists_path(q.pt(f, h), q.pt(f, c)) for c in cc) and all(f.cfg.exists_path(q.pt(f, c), q.pt(f, h)) for c in cc),
                'own hook comes after the children loop', where=f.loc(h['i']))
     c = prog.fn1(M + '::cleanup')
